@@ -46,6 +46,21 @@ impl GlobalCalendarCache {
         }
         Ok(arc)
     }
+
+    /// Drop every entry that was loaded from the given segment directory (the label can be
+    /// given to a new segment once compaction has retired this one).
+    pub fn invalidate_segment(&self, segment_label: &str) {
+        if let Ok(mut guard) = self.inner.lock() {
+            let keys: Vec<_> = guard
+                .iter()
+                .filter(|(key, _)| super::path_in_segment_dir(&key.path, segment_label))
+                .map(|(key, _)| key.clone())
+                .collect();
+            for key in keys {
+                guard.pop(&key);
+            }
+        }
+    }
 }
 
 pub static GLOBAL_CALENDAR_CACHE: Lazy<GlobalCalendarCache> =
@@ -96,6 +111,21 @@ impl GlobalFieldCalendarCache {
             guard.put(key, Arc::clone(&arc));
         }
         Ok(arc)
+    }
+
+    /// Drop every entry that was loaded from the given segment directory (the label can be
+    /// given to a new segment once compaction has retired this one).
+    pub fn invalidate_segment(&self, segment_label: &str) {
+        if let Ok(mut guard) = self.inner.lock() {
+            let keys: Vec<_> = guard
+                .iter()
+                .filter(|(key, _)| super::path_in_segment_dir(&key.path, segment_label))
+                .map(|(key, _)| key.clone())
+                .collect();
+            for key in keys {
+                guard.pop(&key);
+            }
+        }
     }
 }
 
